@@ -16,7 +16,7 @@ class SScope:
 
 class AstGen:
     DEFAULT_W = dict(emit=5, assign=3, ifchain=3, repeat=2, whil=1, brk=1.5, func=1.2, call=2, ret=0.4,
-                     prnt=0.8, exist=0.6, passs=0.2)
+                     prnt=0.8, exist=0.6, passs=0.2, rawkw=0.5)
 
     def __init__(self, rnd: random.Random, weights=None, max_depth=4, fresh_prefix='v'):
         self.r = rnd
@@ -88,6 +88,19 @@ class AstGen:
         if not sc.vars: w['exist'] = w['exist'] * 0.3
         kinds = [k for k in w if w[k] > 0]
         k = r.choices(kinds, [w[x] for x in kinds])[0]
+        if k == 'rawkw':
+            # a block keyword written WITHOUT a block (and its `$` form) is no construct: the line passes through like any unknown
+            # command — also when the same word is used as a real construct elsewhere in the same compilation, before or after
+            word = r.choice(['WHILE', 'IF', 'ELIF', 'ELSE', 'FUNC', 'FUNCTION', 'IGNORE', 'while', 'If', '$WHILE', '$IF', '$REPEAT', '$FOR', '$FUNC', 'REPEAT', 'FOR'])
+            if word.startswith('$'):
+                e = self.int_expr(sc, 1)
+                from refinterp import render_expr
+                return Raw([(0, f'{word} {render_expr(e)}')], [('RAWEVAL', word[1:].upper(), e)])
+            if word.upper() in ('REPEAT', 'FOR'):
+                n = r.choice(['3', '10', '2'])
+                return Raw([(0, f'{word} {n}')], [f'REPEAT {n}'])
+            arg = r.choice(['', '(x<20) THEN', 'done', 'a b  c', 'TRUE', 'f p,q'])
+            return Raw([(0, (word + ' ' + arg).rstrip())], [(word.upper() + ' ' + ' '.join(arg.split(' ', 0))).rstrip() if arg else word.upper()])
         if k == 'emit':
             return Emit(self.tag(), self.int_expr(sc) if self.chance(0.5) else None)
         if k == 'assign':
